@@ -49,6 +49,15 @@ CHECKS = {
              "DimensionalityError. Sampling (thousands of cases per run), no exhaustive sub-domain.",
         note="Units with non-rational or negative factors are excluded from exact/ordering clauses; Quantity == Unit (as opposed to Unit == Quantity) is outside the statement.",
         design="5/C05"),
+    "C07": dict(
+        technique="bounded-exhaustive enumeration of expression trees x spelling variants with a Python-operator evaluation of the tree as oracle; Hypothesis larger trees in float/Decimal/Fraction registries; mutation-based malformed inputs; audit-hook monitored parsing of hostile and random strings",
+        text="Every tree with <= 3 leaves (<= 4 in thorough) over {2,3,m,s} x {+,-,*,/,//,**} with one optional unary minus is rendered with exactly the "
+             "parentheses Python needs, in up to 36 spelling variants (explicit *, blank and parenthesis juxtaposition, ^, superscripts, redundant parentheses, "
+             "whitespace) and must parse to the value/type/error class of the tree evaluated with Python operators. Word forms, larger random trees in all three "
+             "numeric configurations, every +/- / a(b) uncertainty notation with signs and exponents, malformed strings (must raise) and a sys.addaudithook "
+             "monitor over hostile/random strings (no exec/compile/import/open/os/socket events, no foreign objects returned) complete the check.",
+        note="The no-execution clause is a universally quantified negative: the audit-hook oracle is precise but the input search is evidence, not proof. CPython's own attempt to open a file literally named '<string>' when the tokenizer raises SyntaxError is allowed.",
+        design="5/C07"),
     "C08": dict(
         technique="bounded-exhaustive enumeration of all prefix x spelling x plural strings (1.3e5) against the decomposition rule computed by an independent definition reader; Hypothesis mutated/random strings; op-sequence (model-based) lookup histories compared with fresh registries; cross-process determinism probe",
         text="Every string p+u+s over the 72 prefix spellings, ~900 unit spellings and the optional plural is resolved and compared with R's tables: exact "
